@@ -215,6 +215,17 @@ class VDict(Value):
         return 'VDict(%s)' % (self.items if self.items is not None else 'sym')
 
 
+class VDictItems(Value):
+    """d.items() of a symbolic dict: only usable as the iterable of a filtering comprehension / argument of dict()"""
+    shape = 'dictitems'
+
+    def __init__(self, d):
+        self.d = d
+
+    def __repr__(self):
+        return 'VDictItems(sym)'
+
+
 def subst_value(v, old, new):
     """v[old := new] on the z3 leaves (old, new: z3 terms of the same sort)"""
     if isinstance(new, int):
